@@ -24,6 +24,13 @@ call not run within IDLE_BOUND_S = 10 s is a missed wake-up.  During the burst r
 keeps the reactor turning so that a broken wake-up cannot stall the exactly-once/order verdicts
 (they are decided independently of promptness).
 
+Idle burst phase (same bound, same key): still no ticker/timers/I/O; 240 (quick) repetitions of K in
+{2,4,8} threads released together by a barrier, each issuing 1-3 calls with yield injection inside
+callFromThread/wakeUp - a wake-up that only one of several racing callers is supposed to perform
+must not get lost.  Shutdown phase: reactor.stop() is called with the shutdown held open by a
+"before shutdown" trigger returning a Deferred; the loop is still running ("while a reactor runs"),
+threads keep issuing calls, each must run within the idle bound, exactly once, in order; finally
+the Deferred is fired through callFromThread itself and the reactor must exit.
 Guards: cross-thread order is NOT constrained; batch boundaries are evidence only; a round whose
 sentinels do not arrive within the watchdog, a subprocess timeout or a missing reactor type are
 INCONCLUSIVE.
@@ -48,8 +55,10 @@ ASSUMPTIONS = [
 ]
 SHARDS = {"quick": 4, "thorough": 16}
 FLOORS = {
-    "quick": {"calls_executed": 4 * 9000, "idle_calls_measured": 4 * 20, "rounds_decided": 16, "yields_injected": 2000, "reentrant_calls_executed": 100, "raising_calls_executed": 1000},
-    "thorough": {"calls_executed": 100000, "idle_calls_measured": 4 * 20, "rounds_decided": 16, "yields_injected": 10000, "reentrant_calls_executed": 500, "raising_calls_executed": 2000},
+    "quick": {"calls_executed": 4 * 9000, "idle_calls_measured": 4 * 20, "rounds_decided": 16, "yields_injected": 2000, "reentrant_calls_executed": 100, "raising_calls_executed": 1000,
+              "idle_burst_calls_measured": 4 * 400, "shutdown_calls_measured": 4 * 16},
+    "thorough": {"calls_executed": 100000, "idle_calls_measured": 4 * 20, "rounds_decided": 16, "yields_injected": 10000, "reentrant_calls_executed": 500, "raising_calls_executed": 2000,
+                 "idle_burst_calls_measured": 4 * 400, "shutdown_calls_measured": 4 * 16},
 }
 WATCHDOG_S = {"quick": 600, "thorough": 3000}
 READY = True
@@ -83,7 +92,7 @@ def scenario(reactor, inp):
     sys.setswitchinterval(inp.get("switchinterval", 0.0002))  # finer preemption than the 5 ms default
     lock = threading.Lock()
     st = {"log": [], "rseq": 0, "reactor_ident": None, "in_batch": 0, "batches": [], "rid": 0, "stale": 0}
-    result = {"rounds": [], "idle": None, "problems": []}
+    result = {"rounds": [], "idle": None, "idle_burst": None, "shutdown": None, "problems": []}
 
     def record(rid, tid, seq):
         with lock:
@@ -269,22 +278,173 @@ def scenario(reactor, inp):
         return {"latencies": lat, "missed": missed, "timers_left_when_idle": ticker["left"],
                 "readers": len(reactor.getReaders()), "writers": len(reactor.getWriters())}
 
+    def nudge():
+        """Harness-only escape hatch: wake the reactor without going through the code under test, so
+        that a verdict already recorded can be reported although a wake-up was lost."""
+        try:
+            w = getattr(reactor, "waker", None)
+            if w is not None:
+                w.wakeUp()
+            reactor.wakeUp()
+        except BaseException:
+            pass
+
+    def simultaneous_calls(tag, rep, K, rng, seen_log):
+        """K threads released together by a barrier, each issuing 1-3 calls to the (idle) reactor.
+        Returns None when every call ran within the idle bound, else a description of the miss."""
+        plan_ = [rng.randint(1, 3) for _ in range(K)]
+        total = sum(plan_)
+        ev = threading.Event()
+        box = {"n": 0, "raised": None}
+        barrier = threading.Barrier(K)
+
+        def rec(tid, j):
+            with lock:
+                seen_log.append((tag, rep, tid, j, threading.get_ident()))
+                box["n"] += 1
+                if box["n"] >= total:
+                    ev.set()
+
+        def issuer(tid):
+            try:
+                barrier.wait(30)
+            except threading.BrokenBarrierError:
+                pass
+            for j in range(plan_[tid]):
+                try:
+                    reactor.callFromThread(rec, tid, j)
+                except BaseException as e:
+                    box["raised"] = "%s: %s" % (type(e).__name__, e)
+
+        threads = [threading.Thread(target=issuer, args=(t,), daemon=True) for t in range(K)]
+        t0 = time.monotonic()
+        for t in threads:
+            t.start()
+        for t in threads:
+            t.join(60)
+        if box["raised"]:
+            return {"raised": box["raised"], "rep": rep, "K": K}
+        if not ev.wait(IDLE_BOUND_S):
+            with lock:
+                n = box["n"]
+            return {"rep": rep, "K": K, "calls_issued": total, "calls_run": n, "waited_s": round(time.monotonic() - t0, 3)}
+        return None
+
+    def check_small_log(seen_log, expected_n):
+        """exactly once / reactor thread / per-thread order for the calls of the idle-burst and shutdown phases"""
+        bad = []
+        seen, last = {}, {}
+        for tag, rep, tid, j, ident in seen_log:
+            key = (tag, rep, tid, j)
+            seen[key] = seen.get(key, 0) + 1
+            if ident != st["reactor_ident"]:
+                bad.append(["wrong-thread", list(key)])
+            if last.get((tag, rep, tid), -1) >= j:
+                bad.append(["order", list(key)])
+            last[(tag, rep, tid)] = j
+        bad += [["duplicated", list(k)] for k, v in seen.items() if v > 1]
+        return bad[:10]
+
+    def idle_burst_phase():
+        """No ticker, no timers, no I/O: simultaneous calls from several threads to an idle reactor,
+        with yield injection inside callFromThread/wakeUp."""
+        rng = random.Random("burst:%s" % inp.get("burst_seed", 0))
+        seen_log = []
+        out = {"reps_done": 0, "calls": 0, "missed": None, "yields": 0, "timers": None}
+        inj = YieldInjector(codes, p=0.5, seed=rng.randrange(2 ** 31))
+        inj.start()
+        try:
+            for rep in range(inp.get("burst_reps", 0)):
+                time.sleep(0.004 if rep % 10 else IDLE_SLEEP_S / 4)  # the reactor goes back to its blocking wait
+                K = (2, 2, 4, 8)[rep % 4]
+                miss = simultaneous_calls("burst", rep, K, rng, seen_log)
+                if miss is not None:
+                    out["missed"] = miss
+                    break
+                out["reps_done"] += 1
+        finally:
+            inj.stop()
+        with lock:
+            out["calls"] = len(seen_log)
+            out["bad"] = check_small_log(seen_log, None)
+        out["yields"] = inj.yields
+        return out
+
+    def shutdown_phase():
+        """reactor.stop() with the shutdown held open by a 'before shutdown' trigger: the main loop
+        is still running, so callFromThread must still wake it.  The trigger's Deferred is fired
+        through callFromThread itself at the end."""
+        from twisted.internet.defer import Deferred
+
+        rng = random.Random("shutdown:%s" % inp.get("burst_seed", 0))
+        hold = Deferred()
+        stop_called = threading.Event()
+        info = {}
+
+        def install_and_stop():
+            reactor.addSystemEventTrigger("before", "shutdown", lambda: hold)
+            info["timers"] = len(reactor.getDelayedCalls())
+            reactor.stop()
+            stop_called.set()
+
+        out = {"reps_done": 0, "calls": 0, "missed": None, "stop_requested": False, "timers": None, "released": False}
+        reactor.callFromThread(install_and_stop)
+        if not stop_called.wait(IDLE_BOUND_S):
+            out["missed"] = {"rep": -1, "what": "the call that was to stop the reactor did not run"}
+            return out
+        out["stop_requested"] = True
+        seen_log = []
+        inj = YieldInjector(codes, p=0.3, seed=rng.randrange(2 ** 31))
+        inj.start()
+        try:
+            for rep in range(inp.get("shutdown_reps", 0)):
+                time.sleep(IDLE_SLEEP_S / 2 if rep < 4 else 0.01)
+                miss = simultaneous_calls("shutdown", rep, (1, 1, 2, 4)[rep % 4], rng, seen_log)
+                if miss is not None:
+                    out["missed"] = miss
+                    break
+                out["reps_done"] += 1
+        finally:
+            inj.stop()
+        out["timers"] = info.get("timers")
+        with lock:
+            out["calls"] = len(seen_log)
+            out["bad"] = check_small_log(seen_log, None)
+        # release the shutdown through the API under test
+        time.sleep(0.05)
+        try:
+            reactor.callFromThread(hold.callback, None)
+        except BaseException as e:
+            out["release_raised"] = "%s: %s" % (type(e).__name__, e)
+        if stopped.wait(IDLE_BOUND_S):
+            out["released"] = True
+        elif out["missed"] is None:
+            out["missed"] = {"rep": "release", "what": "the call firing the shutdown trigger's Deferred did not run; the reactor never exited"}
+        return out
+
     def driver():
+        stop_in_progress = False
         try:
             for rd in inp["rounds"]:
                 result["rounds"].append(run_round(rd))
             result["idle"] = idle_phase()
+            if result["idle"] is not None and result["idle"].get("missed") is None and "raised" not in result["idle"]:
+                result["idle_burst"] = idle_burst_phase()
+                if result["idle_burst"]["missed"] is None:
+                    stop_in_progress = True
+                    result["shutdown"] = shutdown_phase()
         except BaseException as e:  # harness trouble -> inconclusive in the parent
             import traceback
 
             result["problems"].append("driver exception: " + "".join(traceback.format_exception(type(e), e, e.__traceback__))[-1200:])
         finally:
             try:
-                reactor.callFromThread(reactor.stop)
-                # explicit nudge: with a broken callFromThread wake-up the stop request would sit in
-                # the queue forever and the verdict already recorded could not be reported
+                if not stop_in_progress:
+                    reactor.callFromThread(reactor.stop)
+                # explicit nudge: with a broken wake-up the stop/release request would sit in the
+                # queue forever and the verdict already recorded could not be reported
                 time.sleep(0.05)
-                reactor.wakeUp()
+                nudge()
             except BaseException:
                 pass
             if not stopped.wait(20):
@@ -292,6 +452,7 @@ def scenario(reactor, inp):
 
                 result["problems"].append("reactor could not be stopped through callFromThread")
                 reactorproc.emit_and_exit(result, reactor)
+            driver_done.set()
 
     def begin():
         st["reactor_ident"] = threading.get_ident()
@@ -299,9 +460,12 @@ def scenario(reactor, inp):
         threading.Thread(target=driver, daemon=True).start()
 
     stopped = threading.Event()
+    driver_done = threading.Event()
     reactor.callWhenRunning(begin)
     reactor.run()
     stopped.set()
+    if not driver_done.wait(120):  # the driver stores its last phase result after the reactor has exited
+        result["problems"].append("driver thread did not finish")
     result["planned_failures_logged"] = logged["planned"]
     result["other_failures_logged"] = logged["other"]
     return result
@@ -363,7 +527,8 @@ def plan(ctx):
                 m = int(10000 * scale)
                 shapes = [(1, m, 0.004, 0.0005), (4, m, 0.5, 0.002), (4, m, 0.004, 0.0005), (16, max(40, int(m * 0.3)), 0.8, 0.004), (16, m, 0.05, 0.0005)]
             rounds = [{"K": K, "M": max(40, M), "pace": pace, "pause_s": ps, "p": rng.choice([0.1, 0.25, 0.5]), "seed": rng.randrange(2 ** 31)} for K, M, pace, ps in shapes]
-            jobs.append((rep * len(REACTORS) + ri, name, {"rounds": rounds, "idle_reps": IDLE_REPS}))
+            jobs.append((rep * len(REACTORS) + ri, name, {"rounds": rounds, "idle_reps": IDLE_REPS, "burst_seed": rng.randrange(2 ** 31),
+                                                          "burst_reps": 240 if ctx.quick else 1500, "shutdown_reps": 16 if ctx.quick else 60}))
     return jobs
 
 
@@ -431,7 +596,33 @@ def judge(ctx, name, out):
         ctx.maxi("idle_latency_ms_" + name, round(max(idle["latencies"]) * 1000, 3))
     if idle["missed"] is not None:
         ctx.violation("idle-wakeup-missed", "a call issued while the reactor was idle (no timers, no I/O) did not run within %.0f s" % IDLE_BOUND_S,
-                      {"reactor": name, "missed": idle["missed"], "latencies_before": idle["latencies"]})
+                      {"reactor": name, "phase": "idle, one thread", "missed": idle["missed"], "latencies_before": idle["latencies"]})
+        return
+    for phase, what in (("idle_burst", "calls issued simultaneously by several threads while the reactor was idle (no timers, no I/O)"),
+                        ("shutdown", "calls issued while the reactor, after stop(), kept running its loop with the shutdown held open by a 'before shutdown' trigger")):
+        ph = out.get(phase)
+        if ph is None:
+            ctx.inconclusive("C13 %s: %s phase not reached" % (name, phase))
+            return
+        ctx.count(phase + "_calls_measured", ph["calls"])
+        ctx.count(phase + "_reps", ph["reps_done"])
+        if phase == "idle_burst":
+            ctx.count("yields_injected", ph["yields"])
+        miss = ph["missed"]
+        if miss is not None and "raised" in miss:
+            ctx.violation("callfromthread-raised", "callFromThread raised in the issuing thread while the reactor was running (the call cannot run)",
+                          {"reactor": name, "phase": phase, "raised": miss})
+            return
+        if miss is not None:
+            ctx.violation("idle-wakeup-missed", "%s did not all run within %.0f s" % (what, IDLE_BOUND_S), {"reactor": name, "phase": phase, "missed": miss})
+            return
+        if ph.get("timers"):
+            ctx.inconclusive("C13 %s: reactor had timers during the %s phase" % (name, phase))
+        for kind, key in ph.get("bad", []):
+            ctx.violation({"duplicated": "call-duplicated", "order": "per-thread-order", "wrong-thread": "ran-outside-reactor-thread"}[kind],
+                          "a call of the %s phase broke exactly-once / reactor-thread / per-thread order" % phase, {"reactor": name, "phase": phase, "call": key})
+    if not out["shutdown"].get("released"):
+        ctx.inconclusive("C13 %s: reactor did not exit after the shutdown trigger was released" % name)
 
 
 def run(ctx):
@@ -454,6 +645,6 @@ def replay(ctx, w):
     x = w["witness"]
     name = x.get("reactor", "select")
     rd = {"K": x.get("K", 4), "M": x.get("M", 2000), "p": x.get("p", 0.25), "pace": x.get("pace", 0.06), "seed": x.get("seed", 1)}
-    out = reactorproc.run_scenario(name, "vf.props.c13", {"rounds": [rd], "idle_reps": IDLE_REPS}, timeout=300)
+    out = reactorproc.run_scenario(name, "vf.props.c13", {"rounds": [rd], "idle_reps": IDLE_REPS, "burst_reps": 240, "shutdown_reps": 16, "burst_seed": 1}, timeout=300)
     if reactorproc.fold_status(ctx, out, "C13 replay"):
         judge(ctx, name, out)
